@@ -145,3 +145,154 @@ package http1
 //@   top-ensures reqTimeout <= 0 ==> !shouldCloseConn && timeout == compareTimeout
 //@   top-ensures reqTimeout > 0 && reqTimeout - elapsed <= 0 ==> shouldCloseConn && timeout == 0
 //@   top-ensures reqTimeout > 0 && reqTimeout - elapsed > 0 ==> !shouldCloseConn && 0 < timeout && timeout <= reqTimeout - elapsed && (compareTimeout > 0 ==> timeout <= compareTimeout) && (timeout == reqTimeout - elapsed || timeout == compareTimeout)
+
+// ---- C10: the waiter queue is a FIFO (two-stage queue against its abstract length and front element) ----
+//@ macro qInv(q) = 0 <= q.headPos && q.headPos <= len(q.head) && !mayAlias(q.head, q.tail) && forall(k, q.headPos, len(q.head), q.head[k] != nil) && forall(k, 0, len(q.tail), q.tail[k] != nil)
+//@ macro qLen(q) = len(q.head) - q.headPos + len(q.tail)
+//@ func wantConnQueue.len(q) r
+//@   props C10
+//@   requires q != nil && qInv(q)
+//@   ensures r == qLen(q)
+
+//@ func wantConnQueue.pushBack(q, w)
+//@   props C10
+//@   requires q != nil && qInv(q) && w != nil
+//@   modifies q.tail, spare(q.tail)
+//@   allocates
+//@   top-ensures qInv(q) && qLen(q) == old(qLen(q)) + 1 && q.tail[len(q.tail) - 1] == w
+//@   ensures q.head == old(q.head) && q.headPos == old(q.headPos)
+
+//@ func wantConnQueue.peekFront(q) r
+//@   props C10
+//@   requires q != nil && qInv(q)
+//@   top-ensures (qLen(q) == 0 ==> r == nil) && (q.headPos < len(q.head) ==> r == q.head[q.headPos]) && (q.headPos >= len(q.head) && len(q.tail) > 0 ==> r == q.tail[0])
+
+//@ func wantConnQueue.popFront(q) r
+//@   props C10
+//@   requires q != nil && qInv(q)
+//@   modifies q._all, mem
+//@   top-ensures qInv(q) && (old(qLen(q)) == 0 ==> r == nil && qLen(q) == 0) && (old(qLen(q)) > 0 ==> r != nil && qLen(q) == old(qLen(q)) - 1)
+//@   top-ensures old(q.headPos < len(q.head)) ==> r == old(q.head[q.headPos])
+//@   top-ensures old(q.headPos >= len(q.head) && len(q.tail) > 0) ==> r == old(q.tail[0])
+
+//@ func wantConnQueue.clearFront(q) cleaned
+//@   props C10
+//@   requires q != nil && qInv(q)
+//@   modifies q._all, mem
+//@   top-ensures qInv(q) && qLen(q) <= old(qLen(q))
+//@   loop 0:
+//@     invariant qInv(q) && qLen(q) <= old(qLen(q))
+
+// decConnsCount: the slot of a connection that is gone is either handed to a waiter (a dial is spawned for
+// it and the count stays) or given back (the count goes down by exactly one). Sequential statement: no other
+// goroutine is considered.
+//@ ghost var slotHanded bool
+//@ func HostClient.decConnsCount(c)
+//@   props C10
+//@   requires c != nil && c.ClientOptions != nil && c.connsCount >= 1 && (c.connsWait != nil ==> qInv(c.connsWait))
+//@   modifies *, slotHanded
+//@   ghostset-at-entry slotHanded = false
+//@   ghostset after go: slotHanded = true
+//@   top-ensures (slotHanded ==> c.connsCount == old(c.connsCount)) && (!slotHanded ==> c.connsCount == old(c.connsCount) - 1)
+//@   loop 0:
+//@     invariant !slotHanded && c.connsCount == old(c.connsCount) && qInv(q) && q == c.connsWait
+
+// tryDeliver: a waiter takes at most one result; on success it holds exactly what was handed over.
+//@ func wantConn.tryDeliver(w, conn, err) r
+//@   props C10
+//@   requires w != nil && (conn != nil || err != nil)
+//@   modifies w.conn, w.err
+//@   top-ensures r == (old(w.conn) == nil && old(w.err) == nil)
+//@   top-ensures r ==> w.conn == conn && w.err == err
+//@   top-ensures !r ==> w.conn == old(w.conn) && w.err == old(w.err)
+
+// cancel: a connection that had already been delivered to the waiter goes back through releaseConn (it is not
+// dropped); afterwards the waiter holds no connection.
+//@ ghost var cancelReleased bool
+//@ func wantConn.cancel(w, c, err)
+//@   props C10
+//@   requires w != nil && (w.conn != nil ==> c != nil && c.ClientOptions != nil && (c.connsWait != nil ==> qInv(c.connsWait)))
+//@   modifies *, cancelReleased
+//@   ghostset-at-entry cancelReleased = false
+//@   ghostset after releaseConn: cancelReleased = (arg1 == old(w.conn))
+//@   top-ensures old(w.conn) != nil ==> cancelReleased
+
+// releaseConn: the connection ends up either with exactly one waiter or at the end of the idle list.
+//@ ghost var connDelivered bool
+//@ func HostClient.releaseConn(c, cc)
+//@   props C10
+//@   requires c != nil && c.ClientOptions != nil && cc != nil && (c.connsWait != nil ==> qInv(c.connsWait))
+//@   modifies *, connDelivered
+//@   ghostset-at-entry connDelivered = false
+//@   ghostset after tryDeliver: connDelivered = result
+//@   assert before tryDeliver: arg1 == cc && !connDelivered
+//@   top-ensures connDelivered || (len(c.conns) == old(len(c.conns)) + 1 && c.conns[len(c.conns) - 1] == cc)
+//@   top-ensures connDelivered ==> len(c.conns) == old(len(c.conns))
+//@   loop 0:
+//@     invariant !connDelivered && len(c.conns) == old(len(c.conns)) && qInv(q) && q == c.connsWait && c.conns == old(c.conns)
+
+// queueForIdle: the waiter is appended (FIFO position: last) to a well-formed queue.
+//@ func HostClient.queueForIdle(c, w)
+//@   props C10
+//@   requires c != nil && w != nil && (c.connsWait != nil ==> qInv(c.connsWait))
+//@   modifies *
+//@   top-ensures c.connsWait != nil && qInv(c.connsWait) && len(c.connsWait.tail) >= 1 && c.connsWait.tail[len(c.connsWait.tail) - 1] == w
+
+// closeConn: gives the slot back (decConnsCount) and closes the network connection, each exactly once, before
+// the wrapper object is recycled.
+//@ ghost var ccDec int
+//@ ghost var ccClosed int
+//@ func HostClient.closeConn(c, cc)
+//@   props C10
+//@   abstract
+//@   noinline
+//@   modifies ccDec, ccClosed
+//@   ghostset-at-entry ccDec = 0
+//@   ghostset-at-entry ccClosed = 0
+//@   ghostset after decConnsCount: ccDec = ccDec + 1
+//@   ghostset after Close: ccClosed = ccClosed + 1
+//@   assert before releaseClientConn: ccDec == 1 && ccClosed == 1
+//@   top-ensures ccDec == 1 && ccClosed == 1
+
+// acquireConn / dialConnFor (typestates): a reserved slot whose dial fails is given back exactly once and never
+// otherwise; a freshly dialled connection is wrapped only after a successful dial; a connection dialled for a
+// waiter that no longer wants it goes to the idle list instead of being dropped.
+//@ ghost var dialDone bool
+//@ ghost var dialFailed bool
+//@ ghost var slotBack int
+//@ func HostClient.acquireConn(c, dialTimeout) cc, inPool, err
+//@   props C10
+//@   abstract
+//@   noinline
+//@   modifies dialDone, dialFailed, slotBack
+//@   ghostset-at-entry dialDone = false
+//@   ghostset-at-entry dialFailed = false
+//@   ghostset-at-entry slotBack = 0
+//@   ghostset after dialHostHard: dialDone = true
+//@   ghostset after dialHostHard: dialFailed = (result1 != nil)
+//@   ghostset after decConnsCount: slotBack = slotBack + 1
+//@   assert before decConnsCount: dialDone && dialFailed && slotBack == 0
+//@   assert before acquireClientConn: dialDone && !dialFailed
+//@   top-ensures (dialDone && dialFailed ==> slotBack == 1) && (!(dialDone && dialFailed) ==> slotBack == 0)
+
+//@ ghost var dcDelivered bool
+//@ ghost var dcReleased bool
+//@ func HostClient.dialConnFor(c, w)
+//@   props C10
+//@   abstract
+//@   noinline
+//@   modifies dialDone, dialFailed, slotBack, dcDelivered, dcReleased
+//@   ghostset-at-entry dialDone = false
+//@   ghostset-at-entry dialFailed = false
+//@   ghostset-at-entry slotBack = 0
+//@   ghostset-at-entry dcDelivered = false
+//@   ghostset-at-entry dcReleased = false
+//@   ghostset after dialHostHard: dialDone = true
+//@   ghostset after dialHostHard: dialFailed = (result1 != nil)
+//@   ghostset after decConnsCount: slotBack = slotBack + 1
+//@   ghostset after tryDeliver: dcDelivered = result
+//@   ghostset after releaseConn: dcReleased = true
+//@   assert before decConnsCount: dialDone && dialFailed && slotBack == 0
+//@   assert before releaseConn: dialDone && !dialFailed && !dcDelivered
+//@   top-ensures dialDone && (dialFailed ==> slotBack == 1) && (!dialFailed ==> slotBack == 0 && (dcDelivered || dcReleased))
+
